@@ -101,6 +101,7 @@ def _bisection(R, F, d, hname):
     R.ob(bool(inside), "DOM", d.where(), "DOM|%s|probe" % hname, "no simulation inside the bisection loop")
     R.ob(bool(after), "DOM-all", d.where(), "DOM-all|%s|final-confirmation" % hname, "%s returns an estimate without a final confirmation run after the bisection" % hname,
          sample={"rule": "DOM-all", "fn": hname, "step": "final read_contract(estimate)"})
+    _returned_is_confirmed(R, F, d, hname, after)
     # updates: mid and mid+1, mid = (lower+upper)/2
     mids = 0
     for bi in body:
@@ -115,3 +116,63 @@ def _bisection(R, F, d, hname):
     pb = [c for c in d.calls() if (c.method or "") == "parse_block_number" and not d.is_cleanup(c.bb)]
     R.ob(len(pb) >= 2 and any(d.dominates(a.bb, c.bb) and a.bb != c.bb for a in after for c in pb), "DOM-order", d.where(), "DOM-order|%s|height-recheck" % hname,
          "%s does not re-read the block height after the final confirmation" % hname, sample={"rule": "DOM-order", "fn": hname, "step": "height re-check after confirmation"})
+
+
+INT_TYPES = {"u8", "u16", "u32", "u64", "u128", "usize", "i8", "i16", "i32", "i64", "i128", "isize"}
+
+
+def _returned_is_confirmed(R, F, d, hname, after):
+    """the figure handed back is the figure the final confirmation run was given: between that run and the return,
+    nothing integer-valued is computed into the hex-formatted result, and every named integer variable the result is
+    sliced from also feeds the confirmation's gas argument"""
+    from looprule import backward_locals
+    if not after:
+        return
+    sinks_all = [c for c in d.calls() if (c.path or "").endswith("::new_lower_hex") and "Argument" in (c.path or "") and not d.is_cleanup(c.bb)]
+    cf = None
+    for a in after:
+        if any(d.dominates(a.bb, c.bb) and a.bb != c.bb for c in sinks_all):
+            cf = a
+    sinks = [c for c in sinks_all if cf is not None and d.dominates(cf.bb, c.bb) and cf.bb != c.bb]
+    R.ob(bool(sinks), "ANCHOR", d.where(), "ANCHOR|%s|hex-result" % hname, "%s: no hex-formatted figure is produced after the final confirmation run" % hname)
+    if not sinks:
+        return
+    S = set()
+    for c in sinks:
+        if c.args and "l" in c.args[0]:
+            S |= backward_locals(d, c.args[0])
+    gas_arg = None
+    tgt = F.fns.get(cf.target_id) if cf.target_id else None
+    pn = (tgt.j.get("param_names") or []) if tgt is not None else []
+    if "gas_limit" in pn and pn.index("gas_limit") < len(cf.args):
+        gas_arg = cf.args[pn.index("gas_limit")]
+    R.ob(gas_arg is not None, "ANCHOR", cf.where(), "ANCHOR|%s|gas-argument" % hname, "the simulation entry point has no gas_limit parameter")
+    CONF = backward_locals(d, gas_arg) if gas_arg is not None and "l" in gas_arg else set()
+    bad = []
+    for l in sorted(S):
+        ty = (d.local_ty(l) or "")
+        for (bb, idx, kind, payload) in d.defs().get(l, []):
+            if d.is_cleanup(bb) or not d.dominates(cf.bb, bb) or bb == cf.bb:
+                continue
+            k = payload.get("k")
+            computed = False
+            if k == "assign" and payload["rv"]["k"] in ("bin", "un") and ty in INT_TYPES:
+                computed = True
+            if k == "assign" and payload["rv"]["k"] == "bin" and ty.startswith("(") and ty.split(",")[0].lstrip("(") in INT_TYPES:
+                computed = True    # checked arithmetic pair
+            if k == "call" and ty in INT_TYPES:
+                computed = True
+            if computed:
+                bad.append((l, payload.get("line") or (payload.get("loc") or {}).get("l")))
+    R.ob(not bad, "WIRE", d.where(), "WIRE|%s|returned-is-confirmed" % hname,
+         "%s: the figure returned is recomputed after the final confirmation run (integer computation into the result at line(s) %s): what "
+         "the caller gets was never simulated, so sizing the inscription from it can run out of gas" % (hname, sorted({str(x[1]) for x in bad})),
+         sample={"rule": "WIRE", "fn": hname, "row": "returned figure == gas argument of the final confirmation"})
+    def before_cf(l):
+        return any(not d.dominates(cf.bb, bb) or bb == cf.bb for (bb, idx, kind, payload) in d.defs().get(l, []))
+    named_s = {l for l in S if d.local_name(l) and (d.local_ty(l) or "") in INT_TYPES | {"std::vec::Vec<u64>"} and before_cf(l)}
+    named_c = {l for l in CONF if d.local_name(l)}
+    stray = sorted(d.local_name(l) for l in named_s - named_c)
+    R.ob(bool(named_s) and not stray, "WIRE", d.where(), "WIRE|%s|returned-from-confirmed-variable" % hname,
+         "%s: the returned figure is sliced from %s, which the final confirmation run was not given" % (hname, stray or "no named variable"),
+         sample={"rule": "WIRE", "fn": hname, "returned_from": sorted(d.local_name(l) for l in named_s), "confirmed": sorted(d.local_name(l) for l in named_c)[:8]})
